@@ -499,4 +499,50 @@ example : machine.run init [.acquire 0 1, .acquire 1 2, .spin 0 2] = none := by 
 
 end lockdisc
 
+
+/-! ## batch pops: no unit leaves a pool without reaching the caller -/
+namespace batch
+open ArgoVerif.Model.Assoc
+
+/-- **the adapter over a legacy pool definition is a pop_many**: calling the user's `p_pop` until the buffer is full or the
+pool reports empty hands the caller exactly the first `min m |q|` units in order and leaves the others in the pool — in
+particular every unit that `p_pop` took out of the pool is in the caller's buffer -/
+theorem pop_many_loop_is_split (q : List Nat) (m : Nat) :
+    (popManyLoop q m).1 = (popManySplit q m).1 ∧ (popManyLoop q m).2.1 = (popManySplit q m).2 := by
+  induction m generalizing q with
+  | zero => simp [popManyLoop, popManySplit]
+  | succ m ih =>
+    cases q with
+    | nil => simp [popManyLoop, popManySplit]
+    | cons t rest =>
+      have := ih rest
+      simp only [popManyLoop, popManySplit, List.take_succ_cons, List.drop_succ_cons] at *
+      exact ⟨by rw [this.1], this.2⟩
+
+/-- conservation: handed out ++ left = content before, and the number handed out is `min m |q|` -/
+theorem pop_many_conserves (q : List Nat) (m : Nat) :
+    (popManyLoop q m).1 ++ (popManyLoop q m).2.1 = q ∧ (popManyLoop q m).1.length = min m q.length := by
+  have h := pop_many_loop_is_split q m
+  rw [h.1, h.2]
+  simp [popManySplit, List.take_append_drop, List.length_take]
+
+/-- the user's `p_pop` is called once per unit handed out, plus once more only if the pool ran empty before the buffer was
+full: never for a unit that does not fit -/
+theorem pop_many_calls (q : List Nat) (m : Nat) :
+    (popManyLoop q m).2.2 = (if m ≤ q.length then m else q.length + 1) := by
+  induction m generalizing q with
+  | zero => simp [popManyLoop]
+  | succ m ih =>
+    cases q with
+    | nil => simp [popManyLoop]
+    | cons t rest =>
+      have := ih rest
+      simp only [popManyLoop, List.length_cons]
+      rw [this]
+      split <;> split <;> omega
+
+example : popManyLoop [7, 8, 9] 2 = ([7, 8], [9], 2) ∧ popManyLoop [7, 8] 5 = ([7, 8], [], 3) := by decide
+
+end batch
+
 end ArgoVerif.Props.C14
